@@ -8,26 +8,26 @@ def keyOf (p : QId × QuotaCfg) (h : Hdrs) : Key := (p.1, groupOf p.2 h)
 
 theorem incChain_cons (st : St) (a : QId) (c : QuotaCfg) (rest : List (QId × QuotaCfg)) (r : Rid) (t : Nat) (h : Hdrs) :
     incChain st ((a, c) :: rest) r t h =
-      if (incLevel c.max c.win (st.at (a, groupOf c h)) r t).2 = IncRes.increased then
-        if (incChain (KMap.set st (a, groupOf c h) (incLevel c.max c.win (st.at (a, groupOf c h)) r t).1) rest r t h).2
+      if (incLevel c.max c.win (st.at (a, groupOf c h)) r t (costOf c h)).2 = IncRes.increased then
+        if (incChain (KMap.set st (a, groupOf c h) (incLevel c.max c.win (st.at (a, groupOf c h)) r t (costOf c h)).1) rest r t h).2
             = IncRes.blocked then
-          (KMap.set (incChain (KMap.set st (a, groupOf c h) (incLevel c.max c.win (st.at (a, groupOf c h)) r t).1) rest r t h).1
+          (KMap.set (incChain (KMap.set st (a, groupOf c h) (incLevel c.max c.win (st.at (a, groupOf c h)) r t (costOf c h)).1) rest r t h).1
              (a, groupOf c h)
              (refundLevel (St.at (incChain (KMap.set st (a, groupOf c h)
-                (incLevel c.max c.win (st.at (a, groupOf c h)) r t).1) rest r t h).1 (a, groupOf c h)) r).1,
+                (incLevel c.max c.win (st.at (a, groupOf c h)) r t (costOf c h)).1) rest r t h).1 (a, groupOf c h)) r).1,
            IncRes.blocked)
         else
-          ((incChain (KMap.set st (a, groupOf c h) (incLevel c.max c.win (st.at (a, groupOf c h)) r t).1) rest r t h).1,
+          ((incChain (KMap.set st (a, groupOf c h) (incLevel c.max c.win (st.at (a, groupOf c h)) r t (costOf c h)).1) rest r t h).1,
            IncRes.increased)
-      else (KMap.set st (a, groupOf c h) (incLevel c.max c.win (st.at (a, groupOf c h)) r t).1,
-            (incLevel c.max c.win (st.at (a, groupOf c h)) r t).2) := by
+      else (KMap.set st (a, groupOf c h) (incLevel c.max c.win (st.at (a, groupOf c h)) r t (costOf c h)).1,
+            (incLevel c.max c.win (st.at (a, groupOf c h)) r t (costOf c h)).2) := by
   simp only [incChain]
-  cases hr : (incLevel c.max c.win (st.at (a, groupOf c h)) r t).2 with
+  cases hr : (incLevel c.max c.win (st.at (a, groupOf c h)) r t (costOf c h)).2 with
   | already => simp
   | blocked => simp
   | increased =>
     simp only [if_true]
-    cases hi : (incChain (KMap.set st (a, groupOf c h) (incLevel c.max c.win (st.at (a, groupOf c h)) r t).1) rest r t h).2 <;>
+    cases hi : (incChain (KMap.set st (a, groupOf c h) (incLevel c.max c.win (st.at (a, groupOf c h)) r t (costOf c h)).1) rest r t h).2 <;>
       simp
 
 theorem allowedChain_cons (st : St) (a : QId) (c : QuotaCfg) (rest : List (QId × QuotaCfg)) (r : Rid) (h : Hdrs) :
@@ -44,19 +44,19 @@ theorem decChain_cons (st : St) (a : QId) (c : QuotaCfg) (rest : List (QId × Qu
 
 theorem sInc_cons (ss : SSt) (a : QId) (c : QuotaCfg) (rest : List (QId × QuotaCfg)) (t : Nat) (h : Hdrs) :
     sInc ss ((a, c) :: rest) t h =
-      if c.max < curCharged c.win t (ss.at (a, groupOf c h)) + 1 then (ss, false)
-      else if (sInc (KMap.set ss (a, groupOf c h) (chargeWin c.win t (ss.at (a, groupOf c h)))) rest t h).2 = true then
-        ((sInc (KMap.set ss (a, groupOf c h) (chargeWin c.win t (ss.at (a, groupOf c h)))) rest t h).1, true)
+      if c.max < curCharged c.win t (ss.at (a, groupOf c h)) + costOf c h then (ss, false)
+      else if (sInc (KMap.set ss (a, groupOf c h) (chargeWin c.win t (costOf c h) (ss.at (a, groupOf c h)))) rest t h).2 = true then
+        ((sInc (KMap.set ss (a, groupOf c h) (chargeWin c.win t (costOf c h) (ss.at (a, groupOf c h)))) rest t h).1, true)
       else
-        (KMap.set (sInc (KMap.set ss (a, groupOf c h) (chargeWin c.win t (ss.at (a, groupOf c h)))) rest t h).1
+        (KMap.set (sInc (KMap.set ss (a, groupOf c h) (chargeWin c.win t (costOf c h) (ss.at (a, groupOf c h)))) rest t h).1
            (a, groupOf c h)
-           (refundWin (SSt.at (sInc (KMap.set ss (a, groupOf c h) (chargeWin c.win t (ss.at (a, groupOf c h)))) rest t h).1
+           (refundWin (costOf c h) (SSt.at (sInc (KMap.set ss (a, groupOf c h) (chargeWin c.win t (costOf c h) (ss.at (a, groupOf c h)))) rest t h).1
              (a, groupOf c h))), false) := by
   simp only [sInc]
 
 theorem sAdmit_cons (ss : SSt) (a : QId) (c : QuotaCfg) (rest : List (QId × QuotaCfg)) (h : Hdrs) :
     sAdmit ss ((a, c) :: rest) h =
-      sAdmit (KMap.set ss (a, groupOf c h) (admitWin (ss.at (a, groupOf c h)))) rest h := by
+      sAdmit (KMap.set ss (a, groupOf c h) (admitWin (costOf c h) (ss.at (a, groupOf c h)))) rest h := by
   simp only [sAdmit]
 
 /-! ### Levels of the model against the windows reconstructed by the Spec -/
@@ -103,8 +103,8 @@ theorem allowedLevel_inv_weak {mx : Nat} {l : Lvl} {ws : List Win} (inv : TInv m
 
 /-! ### Lookups in the memo -/
 
-theorem lookup_filter_none (m : List (Rid × Bool)) (p : Rid × Bool → Bool) (r : Rid) (h : m.lookup r = none) :
-    (m.filter p).lookup r = none := by
+theorem lookup_filter_none (m : List (Rid × Option Nat)) (p : Rid × Option Nat → Bool) (r : Rid)
+    (h : m.lookup r = none) : (m.filter p).lookup r = none := by
   induction m with
   | nil => simp
   | cons e m ih =>
@@ -117,15 +117,27 @@ theorem lookup_filter_none (m : List (Rid × Bool)) (p : Rid × Bool → Bool) (
       · simp only [List.filter_cons, hp, if_true, List.lookup_cons, hne]; exact ih h
       · simp only [List.filter_cons, hp]; exact ih h
 
-theorem incLevel_lookup_other (mx win : Nat) (l : Lvl) (r t : Nat) (r' : Rid) (hne : r' ≠ r)
-    (h : l.memo.lookup r' = none) : (incLevel mx win l r t).1.memo.lookup r' = none := by
+theorem lookup_erase_self (m : List (Rid × Option Nat)) (r : Rid) :
+    (m.filter (fun e => e.1 != r)).lookup r = none := by
+  induction m with
+  | nil => simp
+  | cons e m ih =>
+    obtain ⟨a, b⟩ := e
+    by_cases hr : a = r
+    · subst hr; simpa [List.filter_cons] using ih
+    · have h1 : (a != r) = true := by simpa using hr
+      have h2 : (r == a) = false := by simp; exact fun h => hr h.symm
+      simp only [List.filter_cons, h1, if_true, List.lookup_cons, h2]; exact ih
+
+theorem incLevel_lookup_other (mx win : Nat) (l : Lvl) (r t cost : Nat) (r' : Rid) (hne : r' ≠ r)
+    (h : l.memo.lookup r' = none) : (incLevel mx win l r t cost).1.memo.lookup r' = none := by
   have hb : (r' == r) = false := by simpa using hne
   unfold incLevel
   cases hl : l.memo.lookup r with
   | some v => simpa using h
   | none =>
     dsimp only
-    by_cases hblk : mx < (if decide (win ≤ elapsed l t) = true then 0 else l.counter) + 1
+    by_cases hblk : mx < (if decide (win ≤ elapsed l t) = true then 0 else l.counter) + cost
     · simp only [hblk, if_true]
       by_cases hd : decide (win ≤ elapsed l t) = true
       · simp [hd]
@@ -135,24 +147,25 @@ theorem incLevel_lookup_other (mx win : Nat) (l : Lvl) (r t : Nat) (r' : Rid) (h
       · simp [hd, List.lookup_cons, hb]
       · simp [hd, List.lookup_cons, hb, h]
 
-theorem incLevel_increased_lookup (mx win : Nat) (l : Lvl) (r t : Nat)
-    (h : (incLevel mx win l r t).2 = IncRes.increased) :
-    (incLevel mx win l r t).1.memo.lookup r = some true := by
+theorem incLevel_increased_lookup (mx win : Nat) (l : Lvl) (r t cost : Nat)
+    (h : (incLevel mx win l r t cost).2 = IncRes.increased) :
+    (incLevel mx win l r t cost).1.memo.lookup r = some (some cost) := by
   unfold incLevel at h ⊢
   cases hl : l.memo.lookup r with
   | some v => simp [hl] at h
   | none =>
     simp only [hl] at h ⊢
-    by_cases hblk : mx < (if decide (win ≤ elapsed l t) = true then 0 else l.counter) + 1
+    by_cases hblk : mx < (if decide (win ≤ elapsed l t) = true then 0 else l.counter) + cost
     · simp only [hblk, if_true] at h; exact absurd h (by simp)
     · simp only [hblk, if_false]; simp
 
-theorem incLevel_blocked_lookup (mx win : Nat) (l : Lvl) (r t : Nat) (hf : l.memo.lookup r = none)
-    (h : (incLevel mx win l r t).2 ≠ IncRes.increased) :
-    (incLevel mx win l r t).1.memo.lookup r ≠ some true := by
+theorem incLevel_blocked_lookup (mx win : Nat) (l : Lvl) (r t cost : Nat) (hf : l.memo.lookup r = none)
+    (h : (incLevel mx win l r t cost).2 ≠ IncRes.increased) :
+    ∀ c, (incLevel mx win l r t cost).1.memo.lookup r ≠ some (some c) := by
+  intro c
   unfold incLevel at h ⊢
   simp only [hf] at h ⊢
-  by_cases hblk : mx < (if decide (win ≤ elapsed l t) = true then 0 else l.counter) + 1
+  by_cases hblk : mx < (if decide (win ≤ elapsed l t) = true then 0 else l.counter) + cost
   · simp only [hblk, if_true]
     by_cases hd : decide (win ≤ elapsed l t) = true
     · simp [hd]
@@ -168,29 +181,121 @@ theorem refundLevel_lookup_other (l : Lvl) (r r' : Rid) (hne : r' ≠ r) (h : l.
     exact lookup_filter_none _ _ _ h
   · exact h
 
-theorem refundLevel_not_true (l : Lvl) (r : Rid) : (refundLevel l r).1.memo.lookup r ≠ some true := by
+theorem refundLevel_not_true (l : Lvl) (r : Rid) : ∀ c, (refundLevel l r).1.memo.lookup r ≠ some (some c) := by
+  intro c
   unfold refundLevel
   split
   · simp
   · rename_i hx
     intro h
-    exact hx h
+    exact hx c h
 
-theorem refundLevel_did (l : Lvl) (r : Rid) (h : l.memo.lookup r = some true) : (refundLevel l r).2 = true := by
+theorem refundLevel_did (l : Lvl) (r : Rid) (c : Nat) (h : l.memo.lookup r = some (some c)) :
+    (refundLevel l r).2 = true := by
   simp [refundLevel, h]
 
-theorem allowedLevel_false_of (l : Lvl) (r : Rid) (h : l.memo.lookup r ≠ some true) : (allowedLevel l r).2 = false := by
+theorem allowedLevel_false_of (l : Lvl) (r : Rid) (h : ∀ c, l.memo.lookup r ≠ some (some c)) :
+    (allowedLevel l r).2 = false := by
   unfold allowedLevel
   cases hl : l.memo.lookup r with
   | none => rfl
   | some v =>
     cases v with
-    | false => rfl
-    | true => exact absurd hl h
+    | none => rfl
+    | some c => exact absurd hl (h c)
 
-/-- Some quota of the chain has already been charged `max` arrivals in its current window. -/
+theorem allowedLevel_true_iff (l : Lvl) (r : Rid) (h : (allowedLevel l r).2 = true) :
+    ∃ c, l.memo.lookup r = some (some c) := by
+  unfold allowedLevel at h
+  cases hl : l.memo.lookup r with
+  | none => simp [hl] at h
+  | some v =>
+    cases v with
+    | none => simp [hl] at h
+    | some c => exact ⟨c, rfl⟩
+
+theorem allowedLevel_lookup_self (l : Lvl) (r : Rid) : (allowedLevel l r).1.memo.lookup r = none := by
+  unfold allowedLevel
+  cases hl : l.memo.lookup r with
+  | none => exact hl
+  | some v => exact lookup_erase_self _ _
+
+theorem lookup_erase_other (m : List (Rid × Option Nat)) (r r' : Rid) (hne : r' ≠ r) :
+    (m.filter (fun e => e.1 != r)).lookup r' = m.lookup r' := by
+  induction m with
+  | nil => rfl
+  | cons e m ih =>
+    obtain ⟨a, b⟩ := e
+    by_cases ha : a = r
+    · subst ha
+      have h2 : (r' == a) = false := by simpa using hne
+      simp [List.filter_cons, List.lookup_cons, h2, ih]
+    · have h1 : (a != r) = true := by simpa using ha
+      simp only [List.filter_cons, h1, if_true, List.lookup_cons, ih]
+
+/-! #### Pending entries only appear through `Inc` of the same request, with the amount it counts -/
+
+theorem incLevel_entries (mx win : Nat) (l : Lvl) (r t cost : Nat) (r' : Rid) (amt : Nat)
+    (h : (incLevel mx win l r t cost).1.memo.lookup r' = some (some amt)) :
+    l.memo.lookup r' = some (some amt) ∨ (r' = r ∧ amt = cost) := by
+  unfold incLevel at h
+  cases hl : l.memo.lookup r with
+  | some v => simp only [hl] at h; exact Or.inl h
+  | none =>
+    simp only [hl] at h
+    by_cases hr : r' = r
+    · subst hr
+      by_cases hblk : mx < (if decide (win ≤ elapsed l t) = true then 0 else l.counter) + cost
+      · simp only [hblk, if_true] at h
+        by_cases hd : decide (win ≤ elapsed l t) = true
+        · simp [hd] at h
+        · simp [hd] at h
+      · simp only [hblk, if_false] at h
+        simp at h
+        exact Or.inr ⟨rfl, h.symm⟩
+    · have hb : (r' == r) = false := by simpa using hr
+      by_cases hblk : mx < (if decide (win ≤ elapsed l t) = true then 0 else l.counter) + cost
+      · simp only [hblk, if_true] at h
+        by_cases hd : decide (win ≤ elapsed l t) = true
+        · simp [hd] at h
+        · simp [hd, List.lookup_cons, hb] at h; exact Or.inl h
+      · simp only [hblk, if_false] at h
+        by_cases hd : decide (win ≤ elapsed l t) = true
+        · simp [hd, List.lookup_cons, hb] at h
+        · simp [hd, List.lookup_cons, hb] at h; exact Or.inl h
+
+theorem erase_entries (m : List (Rid × Option Nat)) (r r' : Rid) (x : Option Nat)
+    (h : (m.filter (fun e => e.1 != r)).lookup r' = some x) : m.lookup r' = some x := by
+  by_cases hr : r' = r
+  · subst hr; rw [lookup_erase_self] at h; exact absurd h (by simp)
+  · rw [lookup_erase_other _ _ _ hr] at h; exact h
+
+theorem refundLevel_entries (l : Lvl) (r r' : Rid) (amt : Nat)
+    (h : (refundLevel l r).1.memo.lookup r' = some (some amt)) : l.memo.lookup r' = some (some amt) := by
+  unfold refundLevel at h
+  split at h
+  · by_cases hr : r' = r
+    · subst hr; simp at h
+    · have hb : (r' == r) = false := by simpa using hr
+      simp only [List.lookup_cons, hb] at h
+      exact erase_entries _ _ _ _ h
+  · exact h
+
+theorem allowedLevel_entries (l : Lvl) (r r' : Rid) (x : Option Nat)
+    (h : (allowedLevel l r).1.memo.lookup r' = some x) : l.memo.lookup r' = some x := by
+  unfold allowedLevel at h
+  cases hl : l.memo.lookup r with
+  | none => simp only [hl] at h; exact h
+  | some v => simp only [hl] at h; exact erase_entries _ _ _ _ h
+
+theorem decLevel_entries (l : Lvl) (r r' : Rid) (x : Option Nat)
+    (h : (decLevel l r).memo.lookup r' = some x) : l.memo.lookup r' = some x :=
+  erase_entries _ _ _ _ h
+
+/-- Some quota of the chain has no room for what the arrival counts there, given what has been charged
+    to its current window. -/
 def fullCharged (ss : SSt) (ch : List (QId × QuotaCfg)) (t : Nat) (h : Hdrs) : Bool :=
-  ch.any fun (a, c) => decide (c.max ≤ curCharged c.win t (ss.at (a, groupOf c h)))
+  ch.any fun (a, c) => decide (c.max < curCharged c.win t (ss.at (a, groupOf c h)) + costOf c h)
 
 theorem fullCharged_congr (ss ss' : SSt) (t : Nat) (h : Hdrs) : ∀ (ch : List (QId × QuotaCfg)),
     (∀ p ∈ ch, ss.at (keyOf p h) = ss'.at (keyOf p h)) → fullCharged ss ch t h = fullCharged ss' ch t h := by
@@ -217,7 +322,7 @@ theorem incChain_at_other (r t : Nat) (h : Hdrs) (k : Key) : ∀ (ch : List (QId
     intro st hk
     obtain ⟨a, c⟩ := ac
     have hk0 : (a, groupOf c h) ≠ k := hk (a, c) (by simp)
-    have hrest := ih (KMap.set st (a, groupOf c h) (incLevel c.max c.win (st.at (a, groupOf c h)) r t).1)
+    have hrest := ih (KMap.set st (a, groupOf c h) (incLevel c.max c.win (st.at (a, groupOf c h)) r t (costOf c h)).1)
       (fun p hp => hk p (by simp [hp]))
     rw [incChain_cons]
     split
@@ -240,7 +345,7 @@ theorem sInc_at_other (t : Nat) (h : Hdrs) (k : Key) : ∀ (ch : List (QId × Qu
     intro ss hk
     obtain ⟨a, c⟩ := ac
     have hk0 : (a, groupOf c h) ≠ k := hk (a, c) (by simp)
-    have hrest := ih (KMap.set ss (a, groupOf c h) (chargeWin c.win t (ss.at (a, groupOf c h))))
+    have hrest := ih (KMap.set ss (a, groupOf c h) (chargeWin c.win t (costOf c h) (ss.at (a, groupOf c h))))
       (fun p hp => hk p (by simp [hp]))
     rw [sInc_cons]
     split
@@ -263,11 +368,11 @@ theorem incChain_lookup_other (r t : Nat) (h : Hdrs) (r' : Rid) (hne : r' ≠ r)
     intro st hst
     obtain ⟨a, c⟩ := ac
     have hset : ∀ k, (St.at (KMap.set st (a, groupOf c h)
-        (incLevel c.max c.win (st.at (a, groupOf c h)) r t).1) k).memo.lookup r' = none := by
+        (incLevel c.max c.win (st.at (a, groupOf c h)) r t (costOf c h)).1) k).memo.lookup r' = none := by
       intro k
       rw [St.at_set]
       split
-      · exact incLevel_lookup_other _ _ _ _ _ _ hne (hst _)
+      · exact incLevel_lookup_other _ _ _ _ _ _ _ hne (hst _)
       · exact hst k
     have hrest := ih _ hset
     rw [incChain_cons]
@@ -322,6 +427,92 @@ theorem decChain_lookup_none (r : Rid) (h : Hdrs) (r' : Rid) :
     · exact lookup_filter_none _ _ _ (hst _)
     · exact hst k
 
+theorem incChain_entries (r t : Nat) (h : Hdrs) (r' : Rid) (amt : Nat) :
+    ∀ (ch : List (QId × QuotaCfg)) (st : St) (k : Key),
+      ((incChain st ch r t h).1.at k).memo.lookup r' = some (some amt) →
+      (st.at k).memo.lookup r' = some (some amt) ∨ (r' = r ∧ ∃ p ∈ ch, keyOf p h = k ∧ amt = costOf p.2 h) := by
+  intro ch
+  induction ch with
+  | nil => intro st k hl; exact Or.inl hl
+  | cons ac rest ih =>
+    intro st k hl
+    obtain ⟨a, c⟩ := ac
+    have hset : ∀ q, (St.at (KMap.set st (a, groupOf c h)
+        (incLevel c.max c.win (st.at (a, groupOf c h)) r t (costOf c h)).1) q).memo.lookup r' = some (some amt) →
+        (st.at q).memo.lookup r' = some (some amt) ∨ (r' = r ∧ ∃ p ∈ (a, c) :: rest, keyOf p h = q ∧ amt = costOf p.2 h) := by
+      intro q hq
+      rw [St.at_set] at hq
+      by_cases hk : (a, groupOf c h) = q
+      · simp only [hk, if_true] at hq
+        rw [← hk] at hq
+        rcases incLevel_entries _ _ _ _ _ _ _ _ hq with h1 | ⟨h1, h2⟩
+        · left; rw [← hk]; exact h1
+        · right; exact ⟨h1, (a, c), by simp, hk, h2⟩
+      · simp only [hk, if_false] at hq; exact Or.inl hq
+    have hrest : ∀ q, ((incChain (KMap.set st (a, groupOf c h)
+        (incLevel c.max c.win (st.at (a, groupOf c h)) r t (costOf c h)).1) rest r t h).1.at q).memo.lookup r' = some (some amt) →
+        (st.at q).memo.lookup r' = some (some amt) ∨ (r' = r ∧ ∃ p ∈ (a, c) :: rest, keyOf p h = q ∧ amt = costOf p.2 h) := by
+      intro q hq
+      rcases ih _ q hq with h1 | ⟨h1, p, hp, h2, h3⟩
+      · exact hset q h1
+      · exact Or.inr ⟨h1, p, by simp [hp], h2, h3⟩
+    rw [incChain_cons] at hl
+    split at hl
+    · split at hl
+      · dsimp only at hl
+        rw [St.at_set] at hl
+        by_cases hk : (a, groupOf c h) = k
+        · simp only [hk, if_true] at hl
+          have := refundLevel_entries _ _ _ _ hl
+          rw [← hk] at this
+          rw [← hk]
+          exact hrest _ this
+        · simp only [hk, if_false] at hl
+          exact hrest k hl
+      · exact hrest k hl
+    · exact hset k hl
+
+theorem allowedChain_entries (r : Rid) (h : Hdrs) (r' : Rid) (x : Option Nat) :
+    ∀ (ch : List (QId × QuotaCfg)) (st : St) (k : Key),
+      ((allowedChain st ch r h).1.at k).memo.lookup r' = some x → (st.at k).memo.lookup r' = some x := by
+  intro ch
+  induction ch with
+  | nil => intro st k hl; exact hl
+  | cons ac rest ih =>
+    intro st k hl
+    obtain ⟨a, c⟩ := ac
+    have hset : ∀ q, (St.at (KMap.set st (a, groupOf c h) (allowedLevel (st.at (a, groupOf c h)) r).1) q).memo.lookup r' = some x →
+        (st.at q).memo.lookup r' = some x := by
+      intro q hq
+      rw [St.at_set] at hq
+      by_cases hk : (a, groupOf c h) = q
+      · simp only [hk, if_true] at hq
+        rw [← hk] at hq ⊢
+        exact allowedLevel_entries _ _ _ _ hq
+      · simp only [hk, if_false] at hq; exact hq
+    rw [allowedChain_cons] at hl
+    split at hl
+    · exact hset k (ih _ k hl)
+    · exact hset k hl
+
+theorem decChain_entries (r : Rid) (h : Hdrs) (r' : Rid) (x : Option Nat) :
+    ∀ (ch : List (QId × QuotaCfg)) (st : St) (k : Key),
+      ((decChain st ch r h).at k).memo.lookup r' = some x → (st.at k).memo.lookup r' = some x := by
+  intro ch
+  induction ch with
+  | nil => intro st k hl; exact hl
+  | cons ac rest ih =>
+    intro st k hl
+    obtain ⟨a, c⟩ := ac
+    rw [decChain_cons] at hl
+    have := ih _ k hl
+    rw [St.at_set] at this
+    by_cases hk : (a, groupOf c h) = k
+    · simp only [hk, if_true] at this
+      rw [← hk] at this ⊢
+      exact decLevel_entries _ _ _ _ this
+    · simp only [hk, if_false] at this; exact this
+
 /-! ### The walkers preserve the relation -/
 
 theorem incChain_rel (cfg : Cfg) (r t : Nat) (h : Hdrs) : ∀ (ch : List (QId × QuotaCfg)) (st : St) (ss : SSt),
@@ -338,10 +529,10 @@ theorem incChain_rel (cfg : Cfg) (r t : Nat) (h : Hdrs) : ∀ (ch : List (QId ×
     have hac : cfg.quotas[a]? = some c := hv (a, c) (by simp)
     have hf0 : (st.at (a, groupOf c h)).memo.lookup r = none := hfresh (a, c) (by simp)
     have hinv := hrel (a, groupOf c h) c hac
-    have hres := incLevel_res hinv c.win r t hf0
-    have hstep := incLevel_inv hinv c.win r t
+    have hres := incLevel_res hinv c.win r t (costOf c h) hf0
+    have hstep := incLevel_inv hinv c.win r t (costOf c h)
     rw [incChain_cons, sInc_cons]
-    by_cases hblk : c.max < curCharged c.win t (ss.at (a, groupOf c h)) + 1
+    by_cases hblk : c.max < curCharged c.win t (ss.at (a, groupOf c h)) + costOf c h
     · simp only [hblk, if_true] at hres ⊢
       simp only [hres] at hstep ⊢
       have : (IncRes.blocked = IncRes.increased) = False := by simp
@@ -354,58 +545,78 @@ theorem incChain_rel (cfg : Cfg) (r t : Nat) (h : Hdrs) : ∀ (ch : List (QId ×
         intro q hq e
         have : q.1 = a := congrArg Prod.fst e
         exact hnd.1 (by rw [← this]; exact List.mem_map_of_mem hq)
-      obtain ⟨ih1, ih2⟩ := ih (KMap.set st (a, groupOf c h) (incLevel c.max c.win (st.at (a, groupOf c h)) r t).1)
-        (KMap.set ss (a, groupOf c h) (chargeWin c.win t (ss.at (a, groupOf c h))))
+      obtain ⟨ih1, ih2⟩ := ih (KMap.set st (a, groupOf c h) (incLevel c.max c.win (st.at (a, groupOf c h)) r t (costOf c h)).1)
+        (KMap.set ss (a, groupOf c h) (chargeWin c.win t (costOf c h) (ss.at (a, groupOf c h))))
         (fun p hp => hv p (by simp [hp])) hnd.2 (hrel.set2 (a, groupOf c h) c hac _ _ hstep)
         (by
           intro p hp
           rw [St.at_set]
           simp only [Ne.symm (hother p hp), if_false]
           exact hfresh p (by simp [hp]))
-      by_cases hup : (sInc (KMap.set ss (a, groupOf c h) (chargeWin c.win t (ss.at (a, groupOf c h)))) rest t h).2 = true
-      · have hnb : ¬ (incChain (KMap.set st (a, groupOf c h) (incLevel c.max c.win (st.at (a, groupOf c h)) r t).1) rest r t h).2
+      by_cases hup : (sInc (KMap.set ss (a, groupOf c h) (chargeWin c.win t (costOf c h) (ss.at (a, groupOf c h)))) rest t h).2 = true
+      · have hnb : ¬ (incChain (KMap.set st (a, groupOf c h) (incLevel c.max c.win (st.at (a, groupOf c h)) r t (costOf c h)).1) rest r t h).2
             = IncRes.blocked := by
           intro hb; rw [ih2.mp hb] at hup; exact absurd hup (by simp)
         simp only [hup, hnb, if_true, if_false]
         exact ⟨ih1, by simp⟩
-      · have hupf : (sInc (KMap.set ss (a, groupOf c h) (chargeWin c.win t (ss.at (a, groupOf c h)))) rest t h).2 = false := by
+      · have hupf : (sInc (KMap.set ss (a, groupOf c h) (chargeWin c.win t (costOf c h) (ss.at (a, groupOf c h)))) rest t h).2 = false := by
           simpa using hup
         have hb := ih2.mpr hupf
         simp only [hb, hupf, if_true, Bool.false_eq_true, if_false]
         refine ⟨?_, by simp⟩
         -- the level is still as `Inc` left it: the request's entry is `true`, so the refund happens
-        have hat : St.at (incChain (KMap.set st (a, groupOf c h) (incLevel c.max c.win (st.at (a, groupOf c h)) r t).1) rest r t h).1
-            (a, groupOf c h) = (incLevel c.max c.win (st.at (a, groupOf c h)) r t).1 := by
+        have hat : St.at (incChain (KMap.set st (a, groupOf c h) (incLevel c.max c.win (st.at (a, groupOf c h)) r t (costOf c h)).1) rest r t h).1
+            (a, groupOf c h) = (incLevel c.max c.win (st.at (a, groupOf c h)) r t (costOf c h)).1 := by
           rw [incChain_at_other _ _ _ _ _ _ hother, St.at_set]; simp
-        have hdid := refundLevel_did (St.at (incChain (KMap.set st (a, groupOf c h)
-            (incLevel c.max c.win (st.at (a, groupOf c h)) r t).1) rest r t h).1 (a, groupOf c h)) r
-          (by rw [hat]; exact incLevel_increased_lookup _ _ _ _ _ hres)
+        have hlk : (St.at (incChain (KMap.set st (a, groupOf c h)
+            (incLevel c.max c.win (st.at (a, groupOf c h)) r t (costOf c h)).1) rest r t h).1 (a, groupOf c h)).memo.lookup r
+            = some (some (costOf c h)) := by
+          rw [hat]; exact incLevel_increased_lookup _ _ _ _ _ _ hres
+        have hdid := refundLevel_did _ r _ hlk
+        have hamt := pendingAmt_of_lookup _ r _ hlk
         have := refundLevel_inv (ih1 (a, groupOf c h) c hac) r
-        simp only [hdid, if_true] at this
+        simp only [hdid, if_true, hamt] at this
         exact ih1.set2 (a, groupOf c h) c hac _ _ this
 
+/-- What is pending for `r` at the levels of the chain is what `r` counts there with headers `h`. -/
+def AmtOk (st : St) (ch : List (QId × QuotaCfg)) (r : Rid) (h : Hdrs) : Prop :=
+  ∀ p ∈ ch, ∀ amt, (st.at (keyOf p h)).memo.lookup r = some (some amt) → amt = costOf p.2 h
+
 theorem allowedChain_rel (cfg : Cfg) (r : Rid) (h : Hdrs) : ∀ (ch : List (QId × QuotaCfg)) (st : St) (ss : SSt),
-    (∀ p ∈ ch, validPair cfg p) → LevelsRel cfg st ss →
+    (∀ p ∈ ch, validPair cfg p) → LevelsRel cfg st ss → AmtOk st ch r h →
     LevelsRel cfg (allowedChain st ch r h).1 (if (allowedChain st ch r h).2 = true then sAdmit ss ch h else ss) := by
   intro ch
   induction ch with
-  | nil => intro st ss _ hrel; simpa [allowedChain, sAdmit] using hrel
+  | nil => intro st ss _ hrel _; simpa [allowedChain, sAdmit] using hrel
   | cons ac rest ih =>
-    intro st ss hv hrel
+    intro st ss hv hrel hamt
     obtain ⟨a, c⟩ := ac
     have hac : cfg.quotas[a]? = some c := hv (a, c) (by simp)
     have hinv := hrel (a, groupOf c h) c hac
+    have hamt' : AmtOk (KMap.set st (a, groupOf c h) (allowedLevel (st.at (a, groupOf c h)) r).1) rest r h := by
+      intro p hp amt hl
+      rw [St.at_set] at hl
+      by_cases hk : (a, groupOf c h) = keyOf p h
+      · simp only [hk, if_true] at hl
+        rw [← hk, allowedLevel_lookup_self] at hl
+        exact absurd hl (by simp)
+      · simp only [hk, if_false] at hl
+        exact hamt p (by simp [hp]) amt hl
     rw [allowedChain_cons, sAdmit_cons]
     by_cases hb : (allowedLevel (st.at (a, groupOf c h)) r).2 = true
     · simp only [hb, if_true]
       have hv' : ∀ p ∈ rest, validPair cfg p := fun p hp => hv p (by simp [hp])
       by_cases hfin : (allowedChain (KMap.set st (a, groupOf c h) (allowedLevel (st.at (a, groupOf c h)) r).1) rest r h).2 = true
       · have hstrong := allowedLevel_inv hinv r
-        simp only [hb, if_true] at hstrong
-        have := ih _ _ hv' (hrel.set2 (a, groupOf c h) c hac _ _ hstrong)
+        obtain ⟨amt, hl⟩ := allowedLevel_true_iff _ r hb
+        have hcost : pendingAmt (st.at (a, groupOf c h)) r = costOf c h := by
+          rw [pendingAmt_of_lookup _ r amt hl]
+          exact hamt (a, c) (by simp) amt hl
+        simp only [hb, if_true, hcost] at hstrong
+        have := ih _ _ hv' (hrel.set2 (a, groupOf c h) c hac _ _ hstrong) hamt'
         simpa [hfin] using this
       · have hweak := allowedLevel_inv_weak hinv r
-        have := ih _ _ hv' (hrel.setL (a, groupOf c h) c hac _ hweak)
+        have := ih _ _ hv' (hrel.setL (a, groupOf c h) c hac _ hweak) hamt'
         simpa [hfin] using this
     · simp only [hb, Bool.false_eq_true, if_false]
       exact hrel.setL (a, groupOf c h) c hac _ (allowedLevel_inv_weak hinv r)
@@ -428,7 +639,7 @@ theorem incChain_all_true (cfg : Cfg) (r t : Nat) (h : Hdrs) : ∀ (ch : List (Q
     (∀ p ∈ ch, validPair cfg p) → (ch.map (·.1)).Nodup → LevelsRel cfg st ss →
     (∀ p ∈ ch, (st.at (keyOf p h)).memo.lookup r = none) →
     (sInc ss ch t h).2 = true →
-    ∀ p ∈ ch, ((incChain st ch r t h).1.at (keyOf p h)).memo.lookup r = some true := by
+    ∀ p ∈ ch, ((incChain st ch r t h).1.at (keyOf p h)).memo.lookup r = some (some (costOf p.2 h)) := by
   intro ch
   induction ch with
   | nil => intro st ss _ _ _ _ _ p hp; simp at hp
@@ -439,16 +650,16 @@ theorem incChain_all_true (cfg : Cfg) (r t : Nat) (h : Hdrs) : ∀ (ch : List (Q
     have hf0 : (st.at (a, groupOf c h)).memo.lookup r = none := hfresh (a, c) (by simp)
     have hinv := hrel (a, groupOf c h) c hac
     rw [sInc_cons] at hok
-    have hroom : ¬ c.max < curCharged c.win t (ss.at (a, groupOf c h)) + 1 := by
+    have hroom : ¬ c.max < curCharged c.win t (ss.at (a, groupOf c h)) + costOf c h := by
       intro hb; simp [hb] at hok
     simp only [hroom, if_false] at hok
-    have hup : (sInc (KMap.set ss (a, groupOf c h) (chargeWin c.win t (ss.at (a, groupOf c h)))) rest t h).2 = true := by
-      by_cases hu : (sInc (KMap.set ss (a, groupOf c h) (chargeWin c.win t (ss.at (a, groupOf c h)))) rest t h).2 = true
+    have hup : (sInc (KMap.set ss (a, groupOf c h) (chargeWin c.win t (costOf c h) (ss.at (a, groupOf c h)))) rest t h).2 = true := by
+      by_cases hu : (sInc (KMap.set ss (a, groupOf c h) (chargeWin c.win t (costOf c h) (ss.at (a, groupOf c h)))) rest t h).2 = true
       · exact hu
       · simp [hu] at hok
-    have hres := incLevel_res hinv c.win r t hf0
+    have hres := incLevel_res hinv c.win r t (costOf c h) hf0
     simp only [hroom, if_false] at hres
-    have hstep := incLevel_inv hinv c.win r t
+    have hstep := incLevel_inv hinv c.win r t (costOf c h)
     simp only [hres, if_true] at hstep
     simp only [List.map_cons, List.nodup_cons] at hnd
     have hother : ∀ q ∈ rest, keyOf q h ≠ (a, groupOf c h) := by
@@ -456,13 +667,13 @@ theorem incChain_all_true (cfg : Cfg) (r t : Nat) (h : Hdrs) : ∀ (ch : List (Q
       have : q.1 = a := congrArg Prod.fst e
       exact hnd.1 (by rw [← this]; exact List.mem_map_of_mem hq)
     have hrel1 := hrel.set2 (a, groupOf c h) c hac _ _ hstep
-    have hfresh1 : ∀ q ∈ rest, (St.at (KMap.set st (a, groupOf c h) (incLevel c.max c.win (st.at (a, groupOf c h)) r t).1)
+    have hfresh1 : ∀ q ∈ rest, (St.at (KMap.set st (a, groupOf c h) (incLevel c.max c.win (st.at (a, groupOf c h)) r t (costOf c h)).1)
         (keyOf q h)).memo.lookup r = none := by
       intro q hq
       rw [St.at_set]
       simp only [Ne.symm (hother q hq), if_false]
       exact hfresh q (by simp [hq])
-    have hnb : ¬ (incChain (KMap.set st (a, groupOf c h) (incLevel c.max c.win (st.at (a, groupOf c h)) r t).1) rest r t h).2
+    have hnb : ¬ (incChain (KMap.set st (a, groupOf c h) (incLevel c.max c.win (st.at (a, groupOf c h)) r t (costOf c h)).1) rest r t h).2
         = IncRes.blocked := by
       intro hb
       have := (incChain_rel cfg r t h rest _ _ (fun p hp => hv p (by simp [hp])) hnd.2 hrel1 hfresh1).2.mp hb
@@ -472,14 +683,14 @@ theorem incChain_all_true (cfg : Cfg) (r t : Nat) (h : Hdrs) : ∀ (ch : List (Q
     simp only [List.mem_cons] at hp
     rcases hp with hp | hp
     · subst hp
-      show ((incChain _ rest r t h).1.at (a, groupOf c h)).memo.lookup r = some true
+      show ((incChain _ rest r t h).1.at (a, groupOf c h)).memo.lookup r = some (some (costOf c h))
       rw [incChain_at_other _ _ _ _ _ _ hother, St.at_set]
       simp only [if_true]
-      exact incLevel_increased_lookup _ _ _ _ _ hres
+      exact incLevel_increased_lookup _ _ _ _ _ _ hres
     · exact ih _ _ (fun p hp => hv p (by simp [hp])) hnd.2 hrel1 hfresh1 hup p hp
 
 theorem allowedChain_all_true (r : Rid) (h : Hdrs) : ∀ (ch : List (QId × QuotaCfg)) (st : St),
-    (ch.map (·.1)).Nodup → (∀ p ∈ ch, (st.at (keyOf p h)).memo.lookup r = some true) →
+    (ch.map (·.1)).Nodup → (∀ p ∈ ch, ∃ c, (st.at (keyOf p h)).memo.lookup r = some (some c)) →
     (allowedChain st ch r h).2 = true := by
   intro ch
   induction ch with
@@ -487,7 +698,7 @@ theorem allowedChain_all_true (r : Rid) (h : Hdrs) : ∀ (ch : List (QId × Quot
   | cons ac rest ih =>
     intro st hnd hall
     obtain ⟨a, c⟩ := ac
-    have h0 : (st.at (a, groupOf c h)).memo.lookup r = some true := hall (a, c) (by simp)
+    obtain ⟨c0, h0⟩ : ∃ c0, (st.at (a, groupOf c h)).memo.lookup r = some (some c0) := hall (a, c) (by simp)
     have hb : (allowedLevel (st.at (a, groupOf c h)) r).2 = true := by simp [allowedLevel, h0]
     simp only [List.map_cons, List.nodup_cons] at hnd
     rw [allowedChain_cons]
@@ -506,21 +717,22 @@ theorem allowedChain_all_true (r : Rid) (h : Hdrs) : ∀ (ch : List (QId × Quot
 theorem incChain_blocked_head (st : St) (a : QId) (c : QuotaCfg) (rest : List (QId × QuotaCfg)) (r t : Nat) (h : Hdrs)
     (hf : (st.at (a, groupOf c h)).memo.lookup r = none) (hnk : ∀ q ∈ rest, keyOf q h ≠ (a, groupOf c h))
     (hb : (incChain st ((a, c) :: rest) r t h).2 = IncRes.blocked) :
-    ((incChain st ((a, c) :: rest) r t h).1.at (a, groupOf c h)).memo.lookup r ≠ some true := by
+    ∀ c0, ((incChain st ((a, c) :: rest) r t h).1.at (a, groupOf c h)).memo.lookup r ≠ some (some c0) := by
+  intro c0
   rw [incChain_cons] at hb ⊢
-  by_cases hres : (incLevel c.max c.win (st.at (a, groupOf c h)) r t).2 = IncRes.increased
+  by_cases hres : (incLevel c.max c.win (st.at (a, groupOf c h)) r t (costOf c h)).2 = IncRes.increased
   · simp only [hres, if_true] at hb ⊢
-    by_cases hin : (incChain (KMap.set st (a, groupOf c h) (incLevel c.max c.win (st.at (a, groupOf c h)) r t).1) rest r t h).2
+    by_cases hin : (incChain (KMap.set st (a, groupOf c h) (incLevel c.max c.win (st.at (a, groupOf c h)) r t (costOf c h)).1) rest r t h).2
         = IncRes.blocked
     · simp only [hin, if_true]
       rw [St.at_set]
       simp only [if_true]
-      exact refundLevel_not_true _ r
+      exact refundLevel_not_true _ r c0
     · simp [hin] at hb
   · simp only [hres, if_false] at hb ⊢
     rw [St.at_set]
     simp only [if_true]
-    exact incLevel_blocked_lookup _ _ _ _ _ hf hres
+    exact incLevel_blocked_lookup _ _ _ _ _ _ hf hres c0
 
 /-- A limiter call with a fresh request id is let through exactly when the reconstruction says the
     arrival found room in every quota of the chain. -/
@@ -530,7 +742,8 @@ theorem limiter_verdict (cfg : Cfg) (st : St) (ss : SSt) (ch : List (QId × Quot
     (allowedChain (incChain st ch r t h).1 ch r h).2 = (sInc ss ch t h).2 := by
   cases hok : (sInc ss ch t h).2 with
   | true =>
-    exact allowedChain_all_true r h ch _ hnd (incChain_all_true cfg r t h ch st ss hv hnd hrel hfresh hok)
+    exact allowedChain_all_true r h ch _ hnd
+      (fun p hp => ⟨_, incChain_all_true cfg r t h ch st ss hv hnd hrel hfresh hok p hp⟩)
   | false =>
     cases ch with
     | nil => simp [sInc] at hok
